@@ -216,9 +216,11 @@ func (h *HeapEnv) merge(ins []edgeState) *State {
 					def = tFalse
 				case t.Sort == SInt:
 					def = tZero
-				default:
+				case strings.HasPrefix(string(t.Sort), "(Array Int "):
 					inner := string(t.Sort)[len("(Array Int ") : len(t.Sort)-1]
 					def = h.sc.DeclareConst("ea0#"+strings.TrimPrefix(k, "ea#")+"#"+inner, t.Sort)
+				default:
+					def = h.sc.DeclareConst("ghost0#"+k+"#"+string(t.Sort), t.Sort)
 				}
 				break
 			}
